@@ -168,4 +168,5 @@ def main(argv=None):
 
 
 if __name__ == '__main__':
-    main()
+    from common import run_guarded
+    run_guarded('C03', main)
